@@ -233,7 +233,7 @@ func VfC07_getRIB_p2() {
 
 // getHistory: reads interleaved with changes - every Get must reflect the state at ITS moment.
 // program (next-hop with address+MAC payload, group, label entry with a popped stack, IPv4 entry with a
-// decapsulate-header) -> Get(ALL) -> one of {nothing, Flush of the instance, DELETE of the entries, nothing}
+// decapsulate-header) -> Get(ALL) -> one of {nothing, Flush of the instance, DELETE of the entries, re-programming the same keys with a strict SUBSET of their payload + Get}
 // -> re-program next-hop (interface reference + pushed stack instead), label entry (other stack) and IPv4
 // entry (other header) under symbolic keys that may or may not equal the old ones -> Get(ALL) -> Get(NEXTHOP).
 func VfC07_getHistory() {
@@ -254,7 +254,15 @@ func VfC07_getHistory() {
 	must(v4, vfStAcked)
 	vfReach("pre-built")
 	vfGetCheck(r, ref, ni, spb.AFTType_ALL)
-	switch vfInt("h.between", 0, 2) {
+	switch vfInt("h.between", 0, 3) {
+	case 3:
+		// re-programming that only REMOVES payload: the same keys with a strict subset of what they carried
+		// (next-hop: address only; label entry: the first popped label only; IPv4 entry: no decapsulate-header)
+		must(&vfOpD{id: g.id(), typ: vfADD, kind: vfKNH, ni: ni, idx: nh.idx, hasBody: true, x: &vfPayloadX{hasIP: true, ip: nh.x.ip}}, vfStAcked)
+		must(&vfOpD{id: g.id(), typ: vfADD, kind: vfKMPLS, ni: ni, label: lbl.label, hasBody: true, hasNHG: true, nhg: nhg.idx, x: &vfPayloadX{stack: lbl.x.stack[:1]}}, vfStAcked)
+		must(&vfOpD{id: g.id(), typ: vfREPLACE, kind: vfKV4, ni: ni, pfx: v4.pfx, hasBody: true, hasNHG: true, nhg: nhg.idx}, vfStAcked)
+		vfGetCheck(r, ref, ni, spb.AFTType_ALL)
+		vfReach("shrunk")
 	case 1:
 		vfAssert(r.Flush([]string{ni}) == nil, "C08:flush-answers-ok-when-everything-was-removed")
 		ref.flush([]string{ni})
